@@ -74,6 +74,9 @@ FNS_COMPOSABLE = ('all', 'any', 'min', 'max')
 FNS_ORDER = ('min', 'max', 'median') + FNS_ARG
 
 
+TECHNIQUE = 'runtime monitoring: per-line reference reductions (Python / NumPy scalar arithmetic on isolated lines) compared with Series / Frame reductions on every block layout, mechanisms keyed per input class'
+
+
 def _ops():
     out = []
     for fn in FNS_REDUCE + FNS_CUM + FNS_ARG:
